@@ -77,7 +77,12 @@ class Program:
         self.by_self1 = {}     # text of _1's type (refs/Pin stripped) -> body   (closures, coroutines)
         self.by_method = {}    # (selftype ident | None, method) -> [body]
         self.by_suffix = {}
+        self.coro_by_loc = {}   # 'src/x.rs:1:2: 3:4' -> poll body of the async block / async closure body
         for name, b in self.bodies.items():
+            if b.params:
+                mm = re.search(r'\{async (?:block|closure body)@([^}]*)\}', b.params[0][1])
+                if mm and re.search(r'\{closure#\d+\}$', name) and b.params[0][1].startswith('Pin<'):
+                    self.coro_by_loc[mm.group(1)] = b
             if re.search(r'\{closure#\d+\}$', name) and b.params:
                 t = b.params[0][1]
                 while True:
@@ -86,12 +91,12 @@ class Program:
                         break
                     t = s
                 self.by_self1.setdefault(t, b)
-            m = re.search(r'<impl at ([^:]+):(\d+):\d+: \d+:\d+>::([A-Za-z_]\w*)$', name)
+            m = re.search(r'<impl at ([^:]+):(\d+):(\d+): \d+:\d+>::([A-Za-z_]\w*)$', name)
             if m:
-                imp = tables.impls.get((m.group(1), int(m.group(2))))
+                imp = tables.impls.get((m.group(1), int(m.group(2)), int(m.group(3)))) or tables.impls.get((m.group(1), int(m.group(2))))
                 st = imp[0] if imp else None
                 tr = imp[1] if imp else None
-                self.by_method.setdefault((st, m.group(3)), []).append((tr, b))
+                self.by_method.setdefault((st, m.group(4)), []).append((tr, b))
             elif '{closure' not in name and 'promoted[' not in name:
                 segs = name.split('::')
                 self.by_suffix.setdefault(segs[-1], []).append((segs, b))
@@ -105,6 +110,17 @@ class Program:
 
     def closure_body(self, ty):
         return self.by_self1.get(ty.strip())
+
+    def poll_body(self, ty, origin):
+        """poll body of a coroutine value whose aggregate type text is `ty`, created in body `origin`."""
+        mm = re.match(r'\{coroutine@(.*?)( \(#\d+\))?\}$', ty.strip())
+        if mm and mm.group(1) in self.coro_by_loc:
+            return self.coro_by_loc[mm.group(1)]
+        if origin:
+            b = self.bodies.get(origin + '::{closure#0}')
+            if b is not None and b.params and 'async fn body' in b.params[0][1]:
+                return b
+        return None
 
     def resolve(self, info):
         """Crate-local body for a canonical callee, or None."""
@@ -175,6 +191,7 @@ class Exec:
         self.pc = []
         self.depth = 0
         self.uf = {}
+        self.coro_origin = {}   # coroutine aggregate type text -> name of the body that creates it
         self.env = {}           # per-path scratch for models (logs, clocks, ...)
         self.known = {}         # per-path: z3 term id -> concrete int (decided discriminants)
 
@@ -441,6 +458,12 @@ class Exec:
     def call_named(self, callee, args, dest_ty):
         info = canon_callee(callee)
         info['nargs'] = len(args)
+        tys = getattr(self, 'cur_arg_tys', None) or []
+        self.cur_arg_tys = None
+        info['arg_tys'] = tys
+        info['mut_arg'] = any(t.strip().startswith('&mut') or t.strip().startswith('Pin<&mut') for t in tys)
+        if info['key'] in self.models.opaque_bodies:
+            return self.models.uninterpreted(self, info, args, dest_ty)
         m = self.models.lookup(info)
         if m is not None:
             self.stats.models.add(info['key'])
@@ -694,6 +717,7 @@ class Frame:
             if name.startswith('{closure@'):
                 return Adt(name, vals, None, None)
             # coroutine / async block: state discriminant 0 (unresumed)
+            ex.coro_origin[name] = self.body.name
             return Adt(name, vals, 0, None)
         if kind == 'struct':
             ty = name
@@ -791,6 +815,7 @@ class Frame:
                     args = [self.operand(a) for a in t[3]]
                     dty = self.place_type(t[1])
                     ex.cur_frame = self
+                    ex.cur_arg_tys = [self.operand_type(a) for a in t[3]]
                     r = ex.call_named(t[2], args, dty)
                     if t[4] is None:
                         raise PathEnd('panic', 'diverging call %s in %s' % (t[2][:60], body.name))
